@@ -230,6 +230,7 @@ type world struct {
 	policyDeny uint64 // per 16
 	hook       bool
 	limit      int // max datagram payload for SendMessage; 0 = unlimited
+	limitDropAfter, limitDropTo int // after N more accepted datagrams the limit becomes limitDropTo
 	dialFail   int
 	sendFail   int
 	writeFail  int
@@ -307,6 +308,13 @@ func (w *world) SendMessage(buf []byte, msg *protocol.UDPMessage) error {
 		return nil
 	}
 	w.observeReply(pm)
+	if w.limitDropAfter > 0 {
+		// the path's datagram limit shrinks in the middle of a fragment train
+		if w.limitDropAfter--; w.limitDropAfter == 0 {
+			w.limit = w.limitDropTo
+			w.x.Fault("io.limit-drop-mid-train")
+		}
+	}
 	return nil
 }
 
@@ -559,6 +567,10 @@ func genC07(r *hysim.Rand, tier string) *hysim.Script {
 				sc.Ops = append(sc.Ops, hysim.Op{K: "failwrite", A: []int64{1}})
 			case 5:
 				sc.Ops = append(sc.Ops, hysim.Op{K: "limit", A: []int64{r.Pick64(0, 60, 200, 1200)}})
+				if r.Chance(1, 2) {
+					sc.Ops = append(sc.Ops, hysim.Op{K: "limitdrop", A: []int64{r.Pick64(100, 150, 300), int64(r.Range(1, 3))}},
+						hysim.Op{K: "reply", A: []int64{sid, int64(r.Pick(1000, 2500))}})
+				}
 			}
 		}
 	}
@@ -790,6 +802,9 @@ func execC07(x *hysim.Run) {
 			}
 		case "limit":
 			w.limit = int(op.Arg(0))
+		case "limitdrop":
+			w.limitDropTo, w.limitDropAfter = int(op.Arg(0)), int(op.Arg(1))
+			faultsUsed = true
 		}
 		if x.Violated() {
 			break
